@@ -227,8 +227,12 @@ def correspondence(ctx):
             elif any(isinstance(t, dict) for t in g["trees"]):
                 v += "Eval vm_compute in (\"GEN\", %d, false).\n" % k
             else:
-                v += ("Eval vm_compute in (\"GEN\", %d, match generate %d %s with Ok l => llstr_eqb l [%s] | _ => false end).\n"
-                      % (k, g["n"], basis_v(g["basis"]), ";".join(sl(t) for t in g["trees"])))
+                # long list literals overflow Coq's stack: give the expected lines in chunks
+                chunks = shard(g["trees"], 4000) or [[]]
+                for ci, ch in enumerate(chunks):
+                    v += "Definition e%d_%d : list (list string) := [%s].\n" % (k, ci, ";".join(sl(t) for t in ch))
+                v += ("Eval vm_compute in (\"GEN\", %d, match generate %d %s with Ok l => llstr_eqb l (%s) | _ => false end).\n"
+                      % (k, g["n"], basis_v(g["basis"]), " ++ ".join("e%d_%d" % (k, ci) for ci in range(len(chunks)))))
         vts.append(v)
     for ks, (rc, flat) in zip(files, coq_many(vts)):
         for k in ks:
